@@ -97,7 +97,11 @@ namespace DFS
 	  {
 	    // Watford large disk; TODO: decide whether the Format
 	    // enum should distinguish those.
-	    assert(disc_format() == Format::WDFS);
+	    //
+	    // We cannot assert that the format is WDFS here: this bit
+	    // is simply data from the image file, while the format
+	    // was decided by looking for the Watford recognition
+	    // bytes, which may well be absent.
 	  }
 	else
 	  {
